@@ -515,6 +515,8 @@ def _entity_level(out, attrs, spec, case):
         out.fail("entity", "entity:meta_differs", {"to": [ent.getTo(), ent2.getTo()]})
     if mediatype and ent2.media_type != mediatype:
         out.fail("entity", "entity:mediatype_differs", {"got": ent2.media_type})
+    if not out.violations:
+        _typed_level(out, spec, case, kw)
     if out.violations or not case.get("edit"):
         return
     # composing in steps: the application changes the content after the entity has been serialised once (a first send, a log
@@ -541,6 +543,80 @@ def _entity_level(out, attrs, spec, case):
         cmp_message(spec, got1, "message", problems)
         if problems:
             out.fail("entity", "entity:edit_of_copy_changed_original:%s" % problems[0][0], {"path": problems[0][0]})
+
+
+def _typed_classes():
+    from yowsup.layers.protocol_media import protocolentities as PE
+    return {"image": PE.ImageDownloadableMediaMessageProtocolEntity, "video": PE.VideoDownloadableMediaMessageProtocolEntity,
+            "audio": PE.AudioDownloadableMediaMessageProtocolEntity, "document": PE.DocumentDownloadableMediaMessageProtocolEntity,
+            "sticker": PE.StickerDownloadableMediaMessageProtocolEntity, "contact": PE.ContactMediaMessageProtocolEntity,
+            "location": PE.LocationMediaMessageProtocolEntity, "extended_text": PE.ExtendedTextMediaMessageProtocolEntity}
+
+
+def _typed_properties(cls):
+    """name -> property object for the content properties a typed media entity class offers (own class and its media bases)"""
+    from yowsup.layers.protocol_media.protocolentities.message_media import MediaMessageProtocolEntity
+    props = {}
+    for k in cls.__mro__:
+        if k is MediaMessageProtocolEntity:
+            break
+        for name, obj in vars(k).items():
+            if isinstance(obj, property) and name not in ("media_specific_attributes", "downloadablemedia_specific_attributes"):
+                props.setdefault(name, obj)
+    return props
+
+
+def _typed_level(out, spec, case, meta_kw):
+    """the per-kind entity classes applications compose media messages with (ImageDownloadableMediaMessageProtocolEntity, ...):
+    every content property returns what the sender set, and a value assigned through a property setter is what the serialised
+    message carries"""
+    kinds = [k for k in spec if k in KINDS]
+    typed = _typed_classes()
+    if len(kinds) != 1 or "conversation" in spec or kinds[0] not in typed:
+        return
+    kind = kinds[0]
+    T = typed[kind]
+    info = KINDS[kind]
+    fields = {a: k for a, p, k, req in info["fields"]}
+    dmf = {a: k for a, p, k, req in DM} if info["dm"] else {}
+    out.label("typed_entity:" + kind)
+    try:
+        ent = T(build_kind(kind, spec[kind]), MessageMetaAttributes(**meta_kw))
+    except Exception as e:
+        out.fail("typed", "typed:%s:constructor_raises:%s" % (T.__name__, type(e).__name__), {"error": repr(e)[:300]})
+        return
+    edit = case.get("typed_edit") or ((case.get("edit") or {}).get(kind) if isinstance(case.get("edit"), dict) else None)
+    for name, prop in sorted(_typed_properties(T).items()):
+        if name in fields:
+            k, want, new = fields[name], spec[kind].get(name), (edit or {}).get(name)
+        elif name in dmf:
+            k, want, new = dmf[name], spec[kind]["dm"].get(name), ((edit or {}).get("dm") or {}).get(name)
+        else:
+            out.label("typed_property_without_field:%s.%s" % (T.__name__, name))
+            continue
+        if k in ("ctx", "msg", "key"):
+            continue
+        try:
+            got = ext_val(k, getattr(ent, name))
+        except Exception as e:
+            out.fail("typed", "typed:%s.%s:getter_raises:%s" % (T.__name__, name, type(e).__name__), {"error": repr(e)[:200]})
+            return
+        if norm_scalar(k, got) != norm_scalar(k, want):
+            out.fail("typed", "typed:%s.%s:getter_differs" % (T.__name__, name), {"got": _s(got), "set": _s(want)})
+            return
+        if prop.fset is None or new is None:
+            continue
+        try:
+            setattr(ent, name, val(k, new))
+            back = T.fromProtocolTreeNode(ent.toProtocolTreeNode())
+            got2 = ext_val(k, getattr(back, name))
+        except Exception as e:
+            out.fail("typed", "typed:%s.%s:setter_path_raises:%s" % (T.__name__, name, type(e).__name__), {"error": repr(e)[:200]})
+            return
+        if norm_scalar(k, got2) != norm_scalar(k, new):
+            out.fail("typed", "typed:%s.%s:value_set_through_property_not_serialised" % (T.__name__, name), {"got": _s(got2), "set": _s(new)})
+            return
+        out.label("typed_setter")
 
 
 MESSAGE_FIELDS = ("conversation", "image", "contact", "location", "extended_text", "document", "audio", "video", "sticker",
@@ -681,6 +757,10 @@ def case_strategy(sub):
             if draw(st.booleans()):
                 case["edit"] = draw(message_strategy(0))
                 case["edit_copy"] = draw(st.booleans())
+            only = [k for k in spec if k in KINDS]
+            if len(only) == 1 and "conversation" not in spec and only[0] in MEDIATYPE and draw(st.booleans()):
+                # values assigned afterwards through the properties of the kind's own entity class
+                case["typed_edit"] = draw(kind_strategy(only[0], 1))
         return case
     return build()
 
@@ -712,6 +792,11 @@ def _enum_each_kind():
         yield {"sub": "attrs", "spec": s, "meta": {"incoming": True}, "edit": specs[(i + 1) % len(specs)], "edit_copy": bool(i % 2)}
         yield {"sub": "peer", "spec": s}
     yield {"sub": "peer", "spec": specs[-1], "omit": [["protocol", "type"]]}
+    # the kind's own entity classes: read every property, assign every property
+    for s in specs[1:10]:
+        kind = [k for k in s if k in KINDS][0]
+        other = [x for x in specs[1:10] if kind in x and x is not s]
+        yield {"sub": "attrs", "spec": s, "meta": {"incoming": False}, "typed_edit": (other[0] if other else s)[kind]}
 
 
 def plan(tier):
